@@ -421,6 +421,11 @@ def do_replay(pid, path):
             say(h.get("tb", ""))
         return 2
     if r is None:
+        known = read_known(pid)
+        for b, n in sorted(st.known_hits.items()):
+            say(f"KNOWN-FINDING: property={pid} {known.get(b, '(not listed!)')} (bucket={b}, reproduced by this replay)")
+        if st.known_hits:
+            return 0 if all(b in known for b in st.known_hits) else 2
         say(f"replay {path}: property {pid} holds on this case")
         return 0
     say(f"replay {path}: bucket={r[0]} detail={r[1]}")
